@@ -177,3 +177,54 @@ def rerun(prop, path):
         print('VIOLATION property=%s replay=%s' % (prop, path))
         return 1
     return 0
+
+
+def trace_values(r, o, work, names, timeout=300):
+    """re-runs cbmc for the failed obligation with --trace and returns the LAST value assigned to each variable whose
+    base name is in `names` (harness locals / parameters of the verified function)."""
+    if not r.gb or not os.path.exists(r.gb):
+        return None, 'no goto binary'
+    cmd = [c for c in r.cmds[-1].split(' ')] + ['--property', o['id'], '--trace']
+    d = os.path.dirname(r.gb)
+    rc, out, _ = core._run(cmd, timeout, d, os.path.join(d, 'trace.log'))
+    if rc == 'timeout':
+        return None, 'trace run timed out'
+    try:
+        data = json.loads(out[out.index('['):])
+    except Exception:
+        return None, 'trace output unreadable'
+    vals = {}
+    for item in data:
+        for p in item.get('result', []):
+            if p.get('property') == o['id'] and 'trace' in p:
+                for st in p['trace']:
+                    if st.get('stepType') != 'assignment':
+                        continue
+                    lhs = st.get('lhs', '')
+                    base = lhs.split('::')[-1]
+                    m = re.match(r'(\w+)\[(\d+)l?\]$', base)
+                    if m and m.group(1) in names:
+                        vals.setdefault(m.group(1), {})[int(m.group(2))] = _val(st.get('value'))
+                    elif base in names and not st.get('hidden'):
+                        v = _val(st.get('value'))
+                        if v is not None:
+                            vals[base] = v
+    for k, v in list(vals.items()):
+        if isinstance(v, dict):
+            vals[k] = [(v.get(i) or 0) for i in range(max(v) + 1)]
+    return vals, ''
+
+
+def from_trace(driver, names, argfn):
+    """unit.replay recipe: inputs are read from the verifier's counterexample trace itself"""
+    def rep(r, o, work):
+        vals, msg = trace_values(r, o, work, names)
+        if not vals:
+            return {'concretisation': msg or 'the trace assigns none of ' + ','.join(names)}
+        try:
+            args = argfn(vals)
+        except (KeyError, TypeError, IndexError) as e:
+            return {'inputs': vals, 'concretisation': 'trace lacks an input: %r' % e}
+        return {'inputs': vals, 'concretisation': 'values read from the CBMC counterexample for ' + o['id'],
+                'native': run_native(driver, args, work)}
+    return rep
